@@ -387,3 +387,92 @@ def post_apply_for_match(r):
     ref = r.old_self.copy()
     ref.apply_formatting(r.settings, r.match_object.start(r.group), r.match_object.end(r.group))
     return eq_value(r.self, ref)
+
+
+# ------------------------------------------------------------------------------------------ X6: replace / expandtabs
+def is_plain_str(v):
+    return isinstance(v, str) and not hasattr(v, '_s')
+
+
+def post_replace_text(r):
+    return r.result._s == replace_expected(r.old_self._s, r.old, operand_text_c(r.old_new), r.count)
+
+
+def replace_k_range(r):
+    return (0, len(r.result._s))
+
+
+def post_replace_view(r):
+    """characters outside the matches keep their settings; a plain-str replacement takes the settings of the first
+    character of the match it replaces; an AnsiString / AnsiStr replacement brings its own settings - for every match"""
+    src = replace_source(r.old_self._s, r.old, len(operand_text_c(r.old_new)), r.count, r.k)
+    if src[0] == 0:
+        return view_texts(r.result, r.k) == view_texts(r.old_self, src[1])
+    if is_plain_str(r.old_new):
+        if len(r.old) == 0:
+            return True
+        return view_texts(r.result, r.k) == view_texts(r.old_self, src[1])
+    return view_texts(r.result, r.k) == operand_view_texts(r.old_new, src[2])
+
+
+def post_expandtabs_is_replace(r):
+    """expandtabs(tabsize) is replace('\\t', ' ' * tabsize): each tab becomes exactly tabsize spaces (documented deviation)"""
+    ref = r.old_self.copy()
+    ref = ref.replace('\t', ' ' * r.tabsize, inplace=r.inplace)
+    return eq_value(r.result, ref)
+
+
+# ------------------------------------------------------------------------------------------ X8: splitlines, split(None)
+def lines_expected(r):
+    return r.old_self._s.splitlines(r.keepends)
+
+
+def post_pieces_texts(r):
+    e = r.expected_pieces
+    if len(r.result) != len(e):
+        return False
+    i = 0
+    for piece in r.result:
+        if piece._s != e[i]:
+            return False
+        i += 1
+    return True
+
+
+def pieces_k_range(r):
+    return (0, len(r.old_self._s))
+
+
+def post_pieces_view(r):
+    """each piece keeps, character by character, the settings of the original at the piece's true offset"""
+    ok = True
+    j = 0
+    for piece in r.result:
+        if r.k < len(piece._s):
+            if view_texts(piece, r.k) != view_texts(r.old_self, r.expected_offsets[j] + r.k):
+                ok = False
+        j += 1
+    return ok
+
+
+# ------------------------------------------------------------------------------------------ Y3: assign_str
+def post_assign_text(r):
+    return r.self._s == r.s and r.result is None
+
+
+def assign_k_range(r):
+    return (0, len(r.s))
+
+
+def post_assign_view(r):
+    """kept positions keep their settings; added characters continue the last character's settings"""
+    n = len(r.old_self._s)
+    if r.k < n:
+        return view_texts(r.self, r.k) == view_texts(r.old_self, r.k)
+    if n == 0:
+        return view_texts(r.self, r.k) == []
+    return view_texts(r.self, r.k) == view_texts(r.old_self, n - 1)
+
+
+def post_self_wf_ok(r):
+    return wf_ok(r.self)
